@@ -6,6 +6,7 @@ import Gtree.Lemmas.Names
 import Gtree.Lemmas.Build
 import Gtree.Lemmas.ParseDoc
 import Gtree.Lemmas.ParseMixed
+import Gtree.Lemmas.GenFacts
 /-
   C02 — a document is rendered completely or rejected: no silent loss.
   Proved here about the model of the repaired generator:
@@ -530,4 +531,18 @@ theorem C02_builder_step_refines_the_model (h : SrcH.Heap) (hz : List SrcH.HFram
     simp only [hm] at this ⊢
     obtain ⟨h', hz', h1, h2, h3, h4, _⟩ := this
     exact ⟨h', hz', h1, h2, h3, h4⟩
+end Gtree
+
+namespace Gtree
+
+/-- **C02 (facts: the row loops).**  The row loops of the four root generators — `generate` and `generateIter` of the
+    simple mode, the massive mode's worker, the tinywasm build's `generate` — are, on this run, the loops the model's
+    `genStep` / `addItem` was written from (`expectedGenSkeleton`), and they share one row step: node from the row and the
+    counter's next value; error → give up; blank row → skip; root → open a block; no open block → `errNilStack`;
+    otherwise `stack.dfs` (translated, `C02_dfs_is_the_source`), and a refusal is the format error naming that row. -/
+theorem C02_facts_generators_share_one_row_step :
+    Facts.genSkeleton = expectedGenSkeleton ∧
+    Facts.genSkeleton.length = 4 ∧ Facts.genSkeleton.all (fun e => coreOf e.2 == coreStep) = true :=
+  ⟨generator_loops_are_as_expected, generators_share_one_row_step⟩
+
 end Gtree
